@@ -11,6 +11,9 @@ fn main() {
         install_panic_hook();
         std::process::exit(vpcore::checks::c08::child_main(&args[2..]));
     }
+    if args.len() >= 2 && args[1] == "gen-fixtures" {
+        std::process::exit(vpcore::checks::c18::gen_fixtures_main(&args[2..]));
+    }
     if args.len() >= 2 && args[1] == "c12-digest" {
         std::process::exit(vpcore::checks::c12::digest_main(&args[2..]));
     }
